@@ -209,6 +209,8 @@ static void exec_op(const Op& o, Slot* S, Slot& d, Slot& s, Out& out) {
       else if (op == "positive_time_elapse") { if (d.nnc) static_cast<NNC_Polyhedron*>(d.p)->positive_time_elapse_assign(*s.p); else static_cast<C_Polyhedron*>(d.p)->positive_time_elapse_assign(*s.p); }
       else if (op == "topological_closure") d.p->topological_closure_assign();
       else if (op == "simplify_using_context") rb = d.p->simplify_using_context_assign(*s.p);
+      // (the typed API cannot mix the two classes; casting the argument to the receiver's class would be a misuse by the harness)
+      else if (op == "hull_if_exact" && d.nnc != s.nnc) exc = "skipped";
       else if (op == "hull_if_exact") { if (d.nnc) rb = static_cast<NNC_Polyhedron*>(d.p)->poly_hull_assign_if_exact(*static_cast<NNC_Polyhedron*>(s.p)); else rb = (o.var % 2) ? static_cast<C_Polyhedron*>(d.p)->poly_hull_assign_if_exact(*static_cast<C_Polyhedron*>(s.p)) : static_cast<C_Polyhedron*>(d.p)->upper_bound_assign_if_exact(*static_cast<C_Polyhedron*>(s.p)); }
       else if (op == "affine_image") d.p->affine_image(Variable(o.var), le(o.v, n), o.den);
       else if (op == "affine_preimage") d.p->affine_preimage(Variable(o.var), le(o.v, n), o.den);
